@@ -382,7 +382,12 @@ func playWarmups(w *world.World, spec world.Spec, sp int, host string, kinds []s
 			unknown := fmt.Sprintf("https://never-registered-%d.example/metadata", i)
 			switch k {
 			case "sso-unknown":
-				hr, _, _ = spsim.Encode(spec.IdP.Route("sso"), wr(spsim.NewAuthnReq(fmt.Sprintf("_unknown-%d", i), unknown).Tree(plainStyle)), spsim.Transport{Binding: "post", Plus: true, Encoding: A, RelayState: "x"}, nil)
+				// ... with every optional part a message can carry, filled with values nobody else uses
+				ua := spsim.NewAuthnReq(fmt.Sprintf("_unknown-%d", i), unknown)
+				ua.NameIDPolicy = &spsim.NameIDPolicy{Format: "urn:example:nameid-format:left-behind", SPNameQualifier: "https://left-behind.example/qualifier", AllowCreate: "true"}
+				ua.ProviderName, ua.ForceAuthn, ua.ACSURL, ua.ProtocolBinding = "left-behind provider", "true", "https://left-behind.example/acs", world.BindPost
+				ua.Conditions = &spsim.Conditions{NotBefore: spsim.Rel(-60, 0, ""), NotOnOrAfter: spsim.Rel(300, 0, "")}
+				hr, _, _ = spsim.Encode(spec.IdP.Route("sso"), wr(ua.Rendered(time.Now()).Tree(plainStyle)), spsim.Transport{Binding: "post", Plus: true, Encoding: A, RelayState: "x"}, nil)
 			case "logout-unknown":
 				hr, _, _ = spsim.Encode(spec.IdP.Route("slo"), wr(spsim.NewLogoutReq(fmt.Sprintf("_unknown-%d", i), unknown, "x").Tree(plainStyle)), spsim.Transport{Binding: "post", Plus: true, Encoding: A, RelayState: "x"}, nil)
 			default:
